@@ -63,13 +63,6 @@ func (s *caseSpec) plainArrival() {
 	s.RestartK = 1
 	s.Zone = 9 * 3600
 	s.Clocks = []int64{0, 600, -600, 7200}
-	asc := make([]int, len(s.Idents))
-	desc := make([]int, len(s.Idents))
-	for i := range asc {
-		asc[i] = i
-		desc[i] = len(asc) - 1 - i
-	}
-	s.Perms = [][]int{asc, desc}
 }
 
 func allFull(s *caseSpec) []participation {
@@ -103,12 +96,8 @@ func TestFliplessShardLongAnswers(t *testing.T) {
 			t.Fatalf("harness: no long answers generated")
 		}
 		s.plainArrival()
-		switch checkCase(t, s, tables) {
-		case caseExcludedFlipless:
-			evid.Count("regression.flipless-shard-panics(known)")
-		case caseChecked:
-			evid.Count("regression.flipless-shard-evaluates")
-		}
+		checkCase(t, s, tables)
+		evid.Count("regression.flipless-shard-evaluates")
 	}
 }
 
@@ -124,6 +113,14 @@ func chainSpec(ver config.ConsensusVerson) *caseSpec {
 		{State: state.Human, Shard: 1, Required: 3, Flips: 3, Scores: good, Age: 9, Stake: 50},    // evidence
 		{State: state.Human, Shard: 1, Required: 3, Flips: 3, Scores: good, Age: 9, Stake: 50},    // evidence
 		{State: state.Newbie, Shard: 1, Required: 3, Flips: 3, Scores: nil, Age: 1, Stake: 5},     // will miss
+		// more than eight candidates: the per-identity result map then spans several buckets and Go
+		// randomises its iteration order much more (a regression to map-order application shows up
+		// in about every second evaluation)
+		{State: state.Verified, Shard: 1, Required: 3, Flips: 3, Scores: good, Age: 5, Stake: 50},
+		{State: state.Verified, Shard: 1, Required: 3, Flips: 3, Scores: good, Age: 5, Stake: 50},
+		{State: state.Candidate, Shard: 1, Stake: 5},
+		{State: state.Candidate, Shard: 1, Stake: 5},
+		{State: state.Candidate, Shard: 1, Stake: 5},
 	})
 	for k := 0; k < 3; k++ {
 		d := s.Idents[k+1].Addr
@@ -145,12 +142,8 @@ func TestDelegationChainOrder(t *testing.T) {
 		if _, sens := delegationChains(s); len(sens) == 0 {
 			t.Fatalf("harness: the layout is not recognised as order-sensitive")
 		}
-		switch checkCase(t, s, tables) {
-		case caseExcludedChain:
-			evid.Count("regression.delegation-chain-order-dependent(known)")
-		case caseChecked:
-			evid.Count("regression.delegation-chain-order-independent")
-		}
+		checkCase(t, s, tables)
+		evid.Count("regression.delegation-chain-order-independent")
 	}
 }
 
@@ -166,9 +159,7 @@ func TestHandMadeCeremony(t *testing.T) {
 	parts[6].Class = partAbsent
 	s.Msgs = buildMessages(s, tables, parts)
 	s.plainArrival()
-	if v := checkCase(t, s, tables); v != caseChecked {
-		t.Fatalf("harness: hand-made ceremony was excluded (%d)", v)
-	}
+	checkCase(t, s, tables)
 	s.signAll()
 	n := freshNode(s, buildLedger(s))
 	deliver(n, s.blocks(s.Order1, s.Split1))
